@@ -215,7 +215,7 @@ func orDefault(s, d string) string {
 	return s
 }
 
-var segAlphabet = []string{"a", "b", "users", "read", "*", "*", "", "own"}
+var segAlphabet = []string{"a", "b", "users", "read", "*", "*", "", "own", "A", "Users", "READ"} // scope tokens are case-sensitive (RFC 6749 3.3)
 
 func genScope(t *Tape, maxSeg int) string {
 	n := t.Range(1, maxSeg)
@@ -248,7 +248,7 @@ func init() {
 			k.Clients[t.Intn(len(k.Clients))].Audience = nil // a registration without any audience: nothing may be requested
 		}
 		nc := len(k.Clients)
-		scopes := []string{"photos", "users.read", "users.read.own", "users", "mail", "mail.read", "mail.read.all", "files.x", "admin", "a.b.c", "a.b.d", "a..c", "users.", "openid", "offline", "*"}
+		scopes := []string{"photos", "users.read", "users.read.own", "users", "mail", "mail.read", "mail.read.all", "files.x", "admin", "a.b.c", "a.b.d", "a..c", "users.", "openid", "offline", "*", "PHOTOS", "Mail.Read", "Files", "users.READ"}
 		auds := []string{"https://api.sim/v1", "https://api.sim/v1/", "https://api.sim/v1/things", "https://api.sim/v1x", "https://api.sim/", "https://files.sim", "https://files.sim/deep/er", "http://api.sim/v1", "https://API.sim/v1", "https://evil.example", "https://api.sim:8443/v1"}
 		pick := func(pool []string, n int) string {
 			var out []string
@@ -537,6 +537,9 @@ func init() {
 				}
 				if t.Chance(10) {
 					s.P["preset_id_exp"] = fmt.Sprint(t.Range(30, 90000))
+				}
+				if t.Chance(12) {
+					s.P["preset_id_aud"] = "1" // the session names a resource server as an additional ID-token audience
 				}
 				if t.Chance(6) {
 					s.P["empty_sub"] = "1"
